@@ -477,6 +477,81 @@ example : (outs true cfg0 [.execAsync { args := [some 5, some 6, some 7], kwargs
     .execSync call0, .tStart, .tReturn ret0]) =
     [.exc .index, .status .waiting .none 0, .accepted, .started [(1, some 5)], .finished (some (.val ret0))] := by decide
 
+/-! ## a keyword argument the job cannot use is rejected, whatever VALUE the preset fixes -/
+
+/-- A keyword argument can only fill a slot that is still OPEN (`None`) in the command or in the mapping
+dictionary.  A keyword naming a parameter that has no open slot — its value is FIXED by a preset, by
+whatever value (0, an empty string, … are values like any other: `PyVal = Option Nat`, the test is
+`is None`), or by the positional `max_samples` of this very call — always makes `_handle_params` raise
+("unused", or "passed twice"/IndexError from the positional loop).  Subsumes `unknown_kwarg_is_rejected`
+(a name that occurs nowhere has no open slot). -/
+theorem fixed_preset_keyword_is_rejected (names : List Key) (cmd map : Dict) (c : Call) (k : Key)
+    (hk : k ∈ keys c.kwargs) (h1 : (k, none) ∉ cmd) (h2 : (k, none) ∉ map)
+    (h3 : k ≠ maxSamples ∨ c.args.length ≤ names.length ∨ c.args.getLast?.getD none ≠ none) :
+    (handleParams names cmd map c).2.2 ≠ none := by
+  rw [handleParams_eq]
+  split
+  · simp
+  · simp only
+    have hc := posArgs_no_open c.kwargs names (popExtra names map c.args).2 cmd k hk h1
+    have hm := popExtra_no_open names map c.args k h2 h3
+    have := fill_keeps_fixed _ _ k (fill_keeps_fixed _ _ k hk hc) hm
+    generalize (fill (popExtra names map c.args).1
+      (fill (posArgs c.kwargs names (popExtra names map c.args).2 cmd).1 c.kwargs).2).2 = kw2 at this
+    cases kw2 with
+    | nil => simp [keys] at this
+    | cons x xs => simp
+
+/-- History level: in ANY state reached by ANY history, an execute call with a keyword argument for
+which the job has no open slot is refused, starts nothing and leaves status, phase and the number of
+task entries as they were. -/
+theorem fixed_preset_keyword_never_starts_the_task (fixed : Bool) (cfg : Cfg) (w : List Ev) (c : Call)
+    (async : Bool) (k : Key) (hk : k ∈ keys c.kwargs)
+    (h1 : (k, none) ∉ (after fixed cfg w).command) (h2 : (k, none) ∉ (after fixed cfg w).mapping)
+    (h3 : k ≠ maxSamples ∨ c.args.length ≤ cfg.paramNames.length ∨ c.args.getLast?.getD none ≠ none) :
+    let e := if async then Ev.execAsync c else Ev.execSync c
+    (step fixed cfg (after fixed cfg w) e).2 ≠ .accepted ∧
+    (step fixed cfg (after fixed cfg w) e).1.phase = (after fixed cfg w).phase ∧
+    (step fixed cfg (after fixed cfg w) e).1.status = (after fixed cfg w).status ∧
+    (step fixed cfg (after fixed cfg w) e).1.fnCalls = (after fixed cfg w).fnCalls := by
+  apply unknown_args_rejected_before_start
+  exact fixed_preset_keyword_is_rejected _ _ _ _ k hk h1 h2 h3
+
+/-- non-vacuity: the preset fixes the value 0 (Python: `0`, falsy), the caller passes the same name by keyword -/
+example : (4 : Key) ∈ keys [(4, some 7)] ∧ ((4 : Key), (none : PyVal)) ∉ [((4 : Key), (some 0 : PyVal))] ∧
+    (handleParams [1] [(4, some 0)] [] { args := [some 5], kwargs := [(4, some 7)], cbKw := false }).2.2 = some .unused := by
+  decide
+/-- … and for the conversion's dictionary, and for a `max_samples` already given positionally -/
+example : (handleParams [1] [] [(2, some 0)] { args := [some 5], kwargs := [(2, some 7)], cbKw := false }).2.2 = some .unused ∧
+    (handleParams [1] [] [(0, none)] { args := [some 5, some 0], kwargs := [(0, some 7)], cbKw := false }).2.2 = some .unused := by
+  decide
+example : (outs true { cfg0 with command0 := [(4, some 0)] }
+    [.execSync { args := [some 5], kwargs := [(4, some 7)], cbKw := false }, .statusQuery,
+     .execSync call0, .tStart, .tReturn ret0]) =
+    [.exc .unused, .status .waiting .none 0, .accepted, .started [(4, some 0), (1, some 5)],
+     .finished (some (.val ret0))] := by decide
+
+/-- `_handle_params` is blind to the VALUES it routes: it distinguishes `None` from not-`None` and
+nothing else.  Renaming the non-`None` values of the presets, of the positional and of the keyword
+arguments by any function (say one that sends 5 to 0) renames the routed values and changes neither
+where they go nor whether the call is refused, nor the exception. -/
+theorem handle_params_blind_to_values (f : Nat → Nat) (names : List Key) (cmd map : Dict) (c : Call) :
+    handleParams names (vmap f cmd) (vmap f map) (c.vmap f) =
+      (vmap f (handleParams names cmd map c).1, vmap f (handleParams names cmd map c).2.1,
+       (handleParams names cmd map c).2.2) := by
+  rw [handleParams_eq, handleParams_eq]
+  simp only [Call.vmap, popExtra_vmap, posArgs_vmap]
+  cases (posArgs c.kwargs names (popExtra names map c.args).2 cmd).2 with
+  | some e => rfl
+  | none =>
+    simp only [fill_vmap, isEmpty_vmap]
+
+/-- In particular: whether a call is refused, and with which exception, does not depend on WHICH values
+the presets fix or the caller passes (only on which of them are `None`). -/
+theorem rejection_independent_of_values (f : Nat → Nat) (names : List Key) (cmd map : Dict) (c : Call) :
+    (handleParams names (vmap f cmd) (vmap f map) (c.vmap f)).2.2 = (handleParams names cmd map c).2.2 := by
+  rw [handle_params_blind_to_values]
+
 /-! ## several jobs in one process -/
 
 /-- A job of a process that holds any other jobs (in any state) — whatever is done to those jobs and
